@@ -119,7 +119,15 @@ IN_NAMES = ("a", "b", "c")
 OUT_NAMES = ("y", "z")
 
 
-def gen_cfg(rng: common.Rng, kind: str | None = None) -> dict[str, Any]:
+INPLACE_STYLES = ("coupled-same", "coupled-same", "coupled-copy", "plain", "plain", "alias-only", "mixed")
+
+
+def is_inplace(cfg) -> bool:
+    """The body has side effects on its input arrays (in-place update, input array returned as output)."""
+    return bool(cfg.get("wr") or cfg.get("alias"))
+
+
+def gen_cfg(rng: common.Rng, kind: str | None = None, inplace: str | None = None) -> dict[str, Any]:
     kind = kind or rng.pick(["none", "simple", "simple", "simple", "mem", "mem", "mem", "shm", "shm", "hdf", "hdf", "hdf"])
     tol = rng.pick(["0", "0", "0", "0", "1/1024", "1/8", "1/8", "1/8"])
     n_in = rng.pick([1, 1, 2, 2, 3])
@@ -133,6 +141,14 @@ def gen_cfg(rng: common.Rng, kind: str | None = None) -> dict[str, Any]:
         size = rng.pick([1, 2])
         inputs.append(["s", size, [rat(rng.pick([0, 1])) for _ in range(size)] if rng.chance(0.6) else None])
         outputs.append(["s", size])
+    if inplace is None and rng.chance(0.3):
+        inplace = rng.pick(INPLACE_STYLES)
+    if inplace in ("coupled-same", "coupled-copy", "mixed") and not any(i[0] == "s" for i in inputs):
+        size = rng.pick([1, 2])
+        inputs.append(["s", size, None])
+        outputs.append(["s", size])
+    if inplace == "alias-only" and not [o for o in outputs[1:] if o[0] != "s"]:
+        outputs.insert(1, ["z", 1])
     n_x = sum(i[1] for i in inputs)
     A, b, q = {}, {}, {}
     for name, size in outputs:
@@ -143,7 +159,7 @@ def gen_cfg(rng: common.Rng, kind: str | None = None) -> dict[str, Any]:
     for j in range(n_x):
         if A[outputs[0][0]][0][j] == 0:
             A[outputs[0][0]][0][j] = rng.pick([1, -1, 2])
-    if rng.chance(0.12):
+    if not inplace and rng.chance(0.12):
         # a "copy" body (first output = first input): every input is a fixed point, so that an output
         # array passed back as input hits the entry it comes from
         o0, i0 = outputs[0], inputs[0]
@@ -152,7 +168,7 @@ def gen_cfg(rng: common.Rng, kind: str | None = None) -> dict[str, Any]:
         b[o0[0]] = [0] * i0[1]
         q[o0[0]] = [0] * i0[1]
     sym = False
-    if rng.chance(0.2) and not any(i[0] == "s" for i in inputs):
+    if not inplace and rng.chance(0.2) and not any(i[0] == "s" for i in inputs):
         # a "symmetric" body (constant rows of A): it accepts input arrays shorter than declared, so the
         # same input name is called with arrays of different sizes
         sym = True
@@ -169,7 +185,48 @@ def gen_cfg(rng: common.Rng, kind: str | None = None) -> dict[str, Any]:
     else:
         din, dout = ([], out_names) if rng.chance(0.5) else (in_names, [])
     sparse = [[o, i, rng.pick(["csr", "csr", "csc", "coo"])] for o in out_names for i in in_names if rng.chance(0.25)]
+    wr: dict[str, list[str]] = {}
+    alias: dict[str, list[str]] = {}
+    if inplace:
+        # a body with side effects on its input arrays (see harness/c05_disc.py); the inputs concerned have
+        # no default value (a body that modified the default arrays of the discipline would have a state)
+        def written(name: str) -> None:
+            wr[name] = [rat(rng.pick([Fraction(1), Fraction(1), Fraction(-1), Fraction(2), Fraction(1, 2)])),
+                        rng.pick(["iadd", "iadd", "slice", "ufunc-out"])]
+
+        def returned(out: list, name: str) -> None:
+            # the output is the (updated) array of the input: its polynomial is x_name + k
+            size = next(i[1] for i in inputs if i[0] == name)
+            off = 0
+            for i in inputs:
+                if i[0] == name:
+                    break
+                off += i[1]
+            out[1] = size
+            k = Fraction(wr[name][0]) if name in wr else Fraction(0)
+            A[out[0]] = [[1 if j == off + r else 0 for j in range(n_x)] for r in range(size)]
+            b[out[0]] = [rat(k)] * size
+            q[out[0]] = [0] * size
+            alias[out[0]] = [name, rng.pick(["same", "same", "view"])]
+
+        plain = [n for n in in_names if n != "s"]
+        s_out = next((o for o in outputs if o[0] == "s"), None)
+        if inplace in ("coupled-same", "coupled-copy", "mixed"):
+            written("s")
+        if inplace in ("plain", "mixed"):
+            written(rng.pick(plain))
+        if inplace == "coupled-same" or (inplace == "mixed" and rng.chance(0.5)):
+            returned(s_out, "s")
+        if inplace == "alias-only" or (inplace in ("plain", "mixed") and rng.chance(0.3)):
+            cands = [o for o in outputs[1:] if o[0] != "s" and o[0] not in alias]
+            if cands:
+                returned(rng.pick(cands), rng.pick(plain))
+        for i in inputs:
+            if i[0] in wr or any(a[0] == i[0] for a in alias.values()):
+                i[2] = None
     return {
+        "wr": wr,
+        "alias": alias,
         "kind": kind,
         "tol": tol,
         "inputs": inputs,
@@ -213,6 +270,8 @@ def gen_ops(rng: common.Rng, cfg: dict[str, Any], n_ops: int, in_scope: bool = T
                 pool[size].append(v)
 
     sym = bool(cfg.get("sym"))
+    inpl = is_inplace(cfg)
+    wr_k = {n: Fraction(k) for n, (k, _syn) in (cfg.get("wr") or {}).items()}
 
     def value(size: int) -> list[Fraction]:
         if sym and size > 1 and rng.chance(0.4):
@@ -263,17 +322,22 @@ def gen_ops(rng: common.Rng, cfg: dict[str, Any], n_ops: int, in_scope: bool = T
             if calls and mode < 0.3:
                 args = dict(rng.pick(calls)[0])  # the same arrays as an earlier call
             elif calls and mode < 0.45 and (prev := rng.pick(calls)[1]) is not None:
-                # fresh arrays with the values an earlier call had
+                # fresh arrays with the values an earlier call had (a body that updates its inputs in place:
+                # or the values that call left in the arrays, i.e. the state it reached)
+                reached = inpl and rng.chance(0.5)
                 for (name, _size), v in zip(sizes.items(), prev):
                     if has_default[name] and v == defaults[name] and rng.chance(0.5):
                         continue
-                    args[name] = new_array(v)
+                    args[name] = new_array([c + wr_k[name] for c in v] if reached and name in wr_k else v)
             else:
                 for name, size in sizes.items():
                     if has_default[name] and rng.chance(0.3):
                         continue
                     fresh_kept = [i for i in kept if fits(size_of[i], size) and i not in passed]
                     cands = [i for i in vals if fits(size_of[i], size)]
+                    if inpl:  # one array per input name (the body writes into them)
+                        fresh_kept = [i for i in fresh_kept if i not in args.values()]
+                        cands = [i for i in cands if i not in args.values()]
                     if fresh_kept and rng.chance(0.6):
                         i = rng.pick(fresh_kept)
                     elif cands and rng.chance(0.55):
@@ -359,7 +423,13 @@ def gen_ops(rng: common.Rng, cfg: dict[str, Any], n_ops: int, in_scope: bool = T
                 ops.append(["reopen"])
         else:
             ops.append(["clear"])
-    return ops[:n_ops]
+    return exec_only(ops[:n_ops]) if inpl and in_scope else ops[:n_ops]
+
+
+def exec_only(ops):
+    """The in-scope histories of a body with side effects on its inputs call `execute` only (what
+    `linearize` means for such a body is not defined by the property: see notes/C05.md)."""
+    return [["exec", op[3]] + ([op[4]] if len(op) > 4 else []) if op[0] == "lin" else op for op in ops]
 
 
 def gen_scenario(rng: common.Rng, cfg: dict[str, Any]) -> list[list[Any]]:
@@ -406,6 +476,8 @@ def gen_scenario(rng: common.Rng, cfg: dict[str, Any]) -> list[list[Any]]:
     kind = rng.pick(["alias-in", "alias-in", "alias-out", "alias-out", "tol-chain", "tol-chain", "jac-first", "reopen", "many"])
     if cfg.get("sym") and max(sizes.values()) > 1 and rng.chance(0.6):
         kind = "sizes"
+    if is_inplace(cfg) and rng.chance(0.7):
+        return exec_only(gen_scenario_inplace(rng, cfg))
     if kind == "tol-chain" and tol == 0:
         kind = "alias-in"
     if kind in ("reopen", "many") and cfg["kind"] != "hdf":
@@ -503,6 +575,92 @@ def gen_scenario(rng: common.Rng, cfg: dict[str, Any]) -> list[list[Any]]:
         for x in rng.sample(xs, 4):
             call(fresh_args(x, omit_defaults=False), rng.pick(["exec", "lin-all"]))
         call(fresh_args({focus: unit(0, sizes[focus], step * Fraction(19, 2))}, omit_defaults=False), "exec")
+    return exec_only(ops) if is_inplace(cfg) else ops
+
+
+def gen_scenario_inplace(rng: common.Rng, cfg: dict[str, Any]) -> list[list[Any]]:
+    """Histories for a body that updates its input arrays in place and/or returns them as outputs (all
+    inside the quantifier: "repeated, new and in-place modified inputs", "self-coupled variables"):
+    an input repeated with fresh arrays after the body has overwritten the arrays of the first call, a
+    call at the state an earlier call reached (x + k), the same arrays passed again (they now hold the
+    updated state), an output array that is the caller's own input array kept, modified and passed back,
+    a reopen of the file cache in between."""
+    sizes = {i[0]: i[1] for i in cfg["inputs"]}
+    out_sizes = {o[0]: o[1] for o in cfg["outputs"]}
+    wr_k = {n: Fraction(k) for n, (k, _syn) in cfg["wr"].items()}
+    names = list(sizes)
+    ops: list[list[Any]] = []
+    nid = [100]
+
+    def new(v) -> int:
+        nid[0] += 1
+        ops.append(["new", nid[0], [rat(c) for c in v]])
+        return nid[0]
+
+    x0 = {n: [rng.pick([Fraction(0), Fraction(1), Fraction(1, 2), Fraction(-1), Fraction(2)]) for _ in range(sizes[n])] for n in names}
+
+    def state(j: int) -> dict[str, list[Fraction]]:
+        """The values after j runs started from x0 (every written input advanced j times)."""
+        return {n: [c + j * wr_k.get(n, 0) for c in v] for n, v in x0.items()}
+
+    def fresh(x) -> dict[str, int]:
+        return {n: new(x[n]) for n in names}
+
+    def call(args) -> None:
+        ops.append(["exec", dict(args), {"dict": rng.pick(["fresh", "fresh", "shared"]), "junk": False}])
+
+    def maybe_reopen() -> None:
+        if cfg["kind"] == "hdf" and rng.chance(0.3):
+            ops.append(["reopen"])
+
+    kind = rng.pick(["repeat", "repeat", "reached", "reached", "same-arrays", "keep-returned", "demo"])
+    if kind == "keep-returned" and not cfg["alias"]:
+        kind = "reached"
+    if kind == "repeat":
+        # x0, x0 again (fresh arrays: the arrays of the first call now hold x0 + k), then others
+        call(fresh(state(0)))
+        maybe_reopen()
+        call(fresh(state(0)))
+        for _ in range(rng.randint(0, 3)):
+            call(fresh(state(rng.pick([0, 0, 1, 2]))))
+    elif kind == "reached":
+        # x0, then the state reached by that call, then again
+        call(fresh(state(0)))
+        call(fresh(state(1)))
+        maybe_reopen()
+        for _ in range(rng.randint(1, 3)):
+            call(fresh(state(rng.pick([0, 1, 1, 2]))))
+    elif kind == "same-arrays":
+        args = fresh(state(0))
+        for _ in range(rng.randint(2, 3)):
+            call(args)  # a miss advances the arrays, a hit does not
+        maybe_reopen()
+        for _ in range(rng.randint(1, 3)):
+            call(fresh(state(rng.pick([0, 1, 2, 3]))) if rng.chance(0.7) else args)
+    elif kind == "keep-returned":
+        o = rng.pick(list(cfg["alias"]))
+        target = cfg["alias"][o][0]
+        args = fresh(state(0))
+        call(args)
+        nid[0] += 1
+        k = nid[0]
+        ops.append(["keep", k, o])  # after a miss: the caller's own array; after a hit: a copy
+        if rng.chance(0.5):
+            call(fresh(state(rng.pick([0, 1]))))
+        args2 = dict(args)
+        args2[target] = k
+        call(args2)
+        if rng.chance(0.7):
+            ops.append(["mut", k, [rat(rng.pick([Fraction(5), Fraction(-3), Fraction(7, 2)])) for _ in range(out_sizes[o])]])
+        call(fresh(state(rng.pick([0, 1, 2]))))
+        if rng.chance(0.5):
+            call(args2)
+    else:
+        # the pattern of a time-stepping loop restarted: x0, x0, x1, x0, x1, x2
+        for j in (0, 0, 1, 0, 1, 2):
+            call(fresh(state(j)))
+            if j == 1:
+                maybe_reopen()
     return ops
 
 
@@ -594,8 +752,12 @@ def in_quantifier(cfg, ops) -> bool:
     """The history is inside the property's quantifier (see notes/C05.md):
     * the caller modifies only arrays it created or arrays it has passed in as inputs;
     * linearize(execute=False) asserts that the discipline was last executed with the same input
-      values (checked on the values at run time by the runner, here only the syntactic part)."""
+      values (checked on the values at run time by the runner, here only the syntactic part);
+    * a body with side effects on its input arrays is executed, not linearized (the uncached twin
+      itself linearizes such a body at the values its run left in the arrays, not at the inputs)."""
     kept, passed = set(), set()
+    if is_inplace(cfg) and any(op[0] == "lin" for op in ops):
+        return False
     for op in ops:
         if op[0] == "keep":
             kept.add(op[1])
@@ -666,6 +828,8 @@ def make_disc(cfg, kind: str):
         "q": cfg["q"],
         "sparse": cfg["sparse"],
         "run_sets_jac": cfg["sj"],
+        "wr": cfg.get("wr") or {},
+        "alias": cfg.get("alias") or {},
     }
     d = PolyDisc(spec)
     tol = float(fr(cfg["tol"]))
@@ -740,10 +904,15 @@ def cfg_line(cfg) -> str:
     q = ";".join(f"{o}:" + ",".join(str(c) for c in cfg["q"][o]) for o, _ in cfg["outputs"])
     din = ",".join(cfg["din"]) or "[]"
     dout = ",".join(cfg["dout"]) or "[]"
-    return (
+    line = (
         f"cfg kind={cfg['kind']} tol={cfg['tol']} pol=11 in={ins} out={outs} din={din} dout={dout} "
         f"sj={1 if cfg['sj'] else 0} A={A} b={b} q={q}"
     )
+    if is_inplace(cfg):
+        wr = ";".join(f"{n}:{k}" for n, (k, _syn) in cfg.get("wr", {}).items()) or "_"
+        alias = ";".join(f"{o}:{n}" for o, (n, _style) in cfg.get("alias", {}).items()) or "_"
+        line += f" wr={wr} alias={alias}"
+    return line
 
 
 class Run:
@@ -757,12 +926,23 @@ class Run:
         self.exact = True  # every call stayed on the exact stream (inputs with few significant bits)
         self.update_check = None  # (entries, entries of a cache updated from it) at the end of the history
         self.hash_patched = True
+        self.shared_inputs = False  # a body that writes into its inputs was given one array for two inputs
+
+    @property
+    def judged(self) -> bool:
+        return self.exact and not self.shared_inputs
 
 
-def run_history(cfg, ops, kind: str | None = None) -> Run:
-    """Execute the history on the real code (cache `kind`, default the case's)."""
+def run_history(cfg, ops, kind: str | None = None, values_of: Run | None = None) -> Run:
+    """Execute the history on the real code (cache `kind`, default the case's).
+
+    `values_of`: the calls are made with fresh arrays holding the input values that the calls of this
+    other run had (the twin of a body with side effects on its input arrays: "the same sequence" is the
+    sequence of input values; the arrays of the twin's caller evolve differently since the twin runs
+    the body at every call)."""
     kind = kind or cfg["kind"]
     run = Run()
+    inpl = is_inplace(cfg)
     in_names = [i[0] for i in cfg["inputs"]]
     out_names = [o[0] for o in cfg["outputs"]]
     defaults = {i[0]: ([fr(t) for t in i[2]] if i[2] is not None else None) for i in cfg["inputs"]}
@@ -795,6 +975,12 @@ def run_history(cfg, ops, kind: str | None = None) -> Run:
                 elif k in ("exec", "lin", "peek"):
                     args = op_args(op)
                     x = [fvals(heap[args[n]]) if n in args else defaults[n] for n in in_names]
+                    if values_of is not None:
+                        x = values_of.steps[len(run.steps)].get("x", x)
+                    elif inpl and k != "peek":
+                        arrs = [heap[i] for i in args.values()]
+                        if any(np.shares_memory(a, b) for i, a in enumerate(arrs) for b in arrs[i + 1 :]):
+                            run.shared_inputs = True
                     if cfg["hash"] == "coarse" and kind in FULL and patched:
                         tok = coarse_hash({n: np.array([float(c) for c in v]) for n, v in zip(in_names, x)})
                     else:
@@ -818,7 +1004,9 @@ def run_history(cfg, ops, kind: str | None = None) -> Run:
                         step["peek"] = res
                     else:
                         how = op_how(op)
-                        if how["dict"] == "chain":
+                        if values_of is not None:
+                            data = {n: np.array([float(c) for c in v]) for n, v in zip(in_names, x)}
+                        elif how["dict"] == "chain":
                             data = last_ret  # the returned data itself
                         else:
                             data = {n: heap[i] for n, i in args.items()}
@@ -986,7 +1174,9 @@ def oracle(cfg, ops, run: Run, twin: Run | None) -> list[tuple[str, str, int]]:
 
 def evaluate(cfg, ops) -> tuple[Run, list[tuple[str, str, int]]]:
     run = run_history(cfg, ops)
-    twin = run_history(cfg, ops, kind="none") if fr(cfg["tol"]) == 0 and cfg["kind"] != "none" else None
+    twin = None
+    if fr(cfg["tol"]) == 0 and cfg["kind"] != "none":
+        twin = run_history(cfg, ops, kind="none", values_of=run if is_inplace(cfg) else None)
     return run, oracle(cfg, ops, run, twin)
 
 
@@ -995,7 +1185,7 @@ def shrink(cfg, ops, key: str) -> list[list[Any]]:
         if not well_formed(cfg, cand) or not in_quantifier(cfg, cand):
             return False
         run, bad = evaluate(cfg, cand)
-        return run.linx_ok and run.exact and any(b[0] == key for b in bad)
+        return run.linx_ok and run.judged and any(b[0] == key for b in bad)
 
     small = common.shrink_list(ops, fails, budget=150)
     return small
@@ -1004,7 +1194,7 @@ def shrink(cfg, ops, key: str) -> list[list[Any]]:
 def simplify_cfg(cfg, ops, key: str):
     """Try simpler configurations on which the same clause still fails."""
     cur = cfg
-    for patch in ({"hash": "real"}, {"sparse": []}, {"sj": False}):
+    for patch in ({"hash": "real"}, {"sparse": []}, {"sj": False}, {"alias": {}}):
         if all(cur.get(k) == v for k, v in patch.items()):
             continue
         cand = {**cur, **patch}
@@ -1012,7 +1202,7 @@ def simplify_cfg(cfg, ops, key: str):
             run, bad = evaluate(cand, ops)
         except Exception:  # noqa: BLE001
             continue
-        if run.linx_ok and run.exact and any(b[0] == key for b in bad):
+        if run.linx_ok and run.judged and any(b[0] == key for b in bad):
             cur = cand
     return cur
 
@@ -1035,6 +1225,7 @@ def neighbours(rng, cfg, ops):
 
 
 _POOL = None
+_POOL_SIZE = 12
 
 
 def _evaluate_pair(case):
@@ -1043,15 +1234,22 @@ def _evaluate_pair(case):
 
 
 def evaluate_many(cases, parallel: bool):
-    """Implementation side of many cases; in the thorough tier spread over processes (the cases are
-    generated beforehand from the single PRNG: the result does not depend on the scheduling)."""
+    """Implementation side of many cases, spread over processes (5 in the quick tier, 12 in the thorough
+    one; the cases are generated beforehand from the single PRNG and the results are consumed in order:
+    nothing depends on the scheduling)."""
     global _POOL
     if not parallel or len(cases) < 64:
         return [evaluate(cfg, ops) for cfg, ops in cases]
     if _POOL is None:
         import multiprocessing
 
-        _POOL = multiprocessing.get_context("fork").Pool(min(12, os.cpu_count() or 1))
+        # the manager of the shared-memory caches is a process-wide singleton: it must exist before the
+        # fork (a pool worker is daemonic and cannot start one)
+        from gemseo.utils.multiprocessing.manager import get_multi_processing_manager
+
+        get_multi_processing_manager()
+        tmp_dir()  # created (and removed at exit) by the parent, inherited by the workers
+        _POOL = multiprocessing.get_context("fork").Pool(min(_POOL_SIZE, os.cpu_count() or 1))
     return _POOL.map(_evaluate_pair, cases, chunksize=16)
 
 
@@ -1069,8 +1267,8 @@ def check_cases(res: Result, cases, rng, in_scope: bool = True, parallel: bool =
         m = model[pos : pos + len(run.lines)]
         pos += len(run.lines)
         res.evaluations += 1
-        if not run.exact:
-            res.count("left-exact-stream (not judged)")
+        if not run.judged:
+            res.count("left-exact-stream (not judged)" if not run.exact else "one-array-for-two-inputs-of-a-writing-body (not judged)")
             continue
         scope = in_scope and in_quantifier(cfg, ops) and run.linx_ok
         account(res, cfg, ops, run, scope)
@@ -1104,7 +1302,7 @@ def check_cases(res: Result, cases, rng, in_scope: bool = True, parallel: bool =
             if not well_formed(ncfg, nops) or not in_quantifier(ncfg, nops):
                 continue
             r2, b2 = evaluate(ncfg, nops)
-            if b2 and r2.linx_ok and r2.exact:
+            if b2 and r2.linx_ok and r2.judged:
                 key = b2[0][0]
                 small = shrink(ncfg, nops, key)
                 r3, b3 = evaluate(ncfg, small)
@@ -1135,6 +1333,29 @@ def account(res: Result, cfg, ops, run: Run, scope: bool) -> None:
             res.count("sparse-format=" + (blk[2] if len(blk) > 2 else "csr"))
     if cfg["sj"]:
         res.count("run-sets-jacobian")
+    if is_inplace(cfg):
+        res.count("body-with-side-effects-on-inputs")
+        for n, (_k, syn) in cfg.get("wr", {}).items():
+            res.count("body-updates-in-place=" + ("self-coupled" if n == "s" else "plain-input") + f"({syn})")
+        for o, (n, style) in cfg.get("alias", {}).items():
+            res.count("body-returns-input-array=" + style + ("(self-coupled)" if o == n else ""))
+        if scope:
+            res.count("in-scope+body-with-side-effects")
+            ex = [st for st in run.steps if st["op"][0] == "exec" and "x" in st]
+            seen: list = []
+            k_of = {n: Fraction(k) for n, (k, _s) in cfg.get("wr", {}).items()}
+            names = [i[0] for i in cfg["inputs"]]
+            rep = reached = 0
+            for st in ex:
+                if st["x"] in seen:
+                    rep += 1
+                if any([[c + k_of.get(n, 0) for c in v] for n, v in zip(names, w)] == st["x"] for w in seen) and k_of:
+                    reached += 1
+                seen.append(st["x"])
+            res.count("in-place:call-repeats-an-earlier-input", rep)
+            res.count("in-place:call-at-the-state-an-earlier-call-reached", reached)
+            res.count("in-place:hit", sum(1 for st in ex if st.get("ran") == 0))
+            res.count("in-place:miss", sum(1 for st in ex if st.get("ran") == 1))
     for op in ops:
         res.count("op=" + op[0] + (f"-{op[1]}-{'exe' if op[2] else 'noexe'}" if op[0] == "lin" else ""))
         if op[0] in ("exec", "lin"):
@@ -1229,6 +1450,8 @@ def run(ctx) -> Result:
         "disagree on the reference norm; the oracle accepts both)",
     ]
     rng = ctx.rng
+    global _POOL_SIZE
+    _POOL_SIZE = 12 if ctx.thorough else 5
     corpus = load_corpus()
     check_cases(res, corpus, rng)
     res.count("corpus", len(corpus))
@@ -1241,7 +1464,7 @@ def run(ctx) -> Result:
         batch = []
         for _ in range(min(batch_size, n - done)):
             batch.append(gen_case(rng))
-        check_cases(res, batch, rng, parallel=ctx.thorough)
+        check_cases(res, batch, rng, parallel=True)
         done += len(batch)
     probe_returned_jacobian(res)
     # out-of-scope probe stream (never a violation)
@@ -1249,7 +1472,7 @@ def run(ctx) -> Result:
     for _ in range(n // 10):
         cfg = gen_cfg(rng)
         probe.append((cfg, gen_ops(rng, cfg, rng.randint(3, 16), in_scope=False)))
-    check_cases(res, probe, rng, in_scope=False, parallel=ctx.thorough)
+    check_cases(res, probe, rng, in_scope=False, parallel=True)
     if ctx.thorough:
         for kind in ("simple", "mem", "shm", "hdf"):
             for tol in ("0", "1/8"):
